@@ -2,6 +2,7 @@ import H2T.Lemmas.FitsBlock
 import H2T.Lemmas.ConserveTree
 import H2T.Lemmas.ConserveTableTree
 import H2T.Lemmas.ConserveTableExact
+import H2T.Lemmas.DomFactor
 import H2T.Props.C15
 import H2T.Props.C04
 
@@ -182,6 +183,17 @@ theorem regular_table_conserves_text (c : Ch) (hc : isBox c = false) (hm : c ≠
     (he : runOp SubR.widthMinus cfg d t (.table cols rows) = .ok t') :
     t'.cur.ink.count c = t.cur.ink.count c + (rawInks d rows).count c :=
   table_cnt_eq c hc hm hw cfg d hfn hov cols rows t t' ws tw ha hpos hwf hreg hsil hfr he
+
+/-- **nothing invented or duplicated, whole pipeline**: whatever the document and the style sheets, the characters of a
+    `.lines` outcome occur at most as often as in the texts of the render tree the front end built -/
+theorem no_character_invented_pipeline (c : Ch) (hc : isBox c = false) (hm : c ≠ strikeMark) (cfg : Cfg) (d : Deco) (w : Nat)
+    (useDoc : Bool) (agentCss userCss : Option (List Char)) (ci : CharInfo) (depth : Nat) (dom : Node) (ls : List RLine)
+    (hfn : cfg.footnotes = false) (hd : SilentDeco d)
+    (h : renderDom cfg d w useDoc agentCss userCss ci depth dom = .lines ls) :
+    ∃ tree, domTree cfg.decorate useDoc agentCss userCss ci depth dom = .ok tree ∧
+      (ls.flatMap rink).count c ≤ (nodeRaw d tree).count c := by
+  obtain ⟨tree, hdt, _, hr⟩ := renderDom_lines cfg d w useDoc agentCss userCss ci depth dom ls h
+  exact ⟨tree, hdt, no_character_invented c hc hm cfg d w tree ls hfn hd hr⟩
 
 /-! non-vacuity: the letter `a` is neither a box character nor the strikeout mark; the trivial decorator is silent -/
 example : isBox (mkCh 97) = false ∧ mkCh 97 ≠ strikeMark ∧ SilentDeco Deco.trivial := ⟨rfl, by decide, trivial_silent⟩
